@@ -315,16 +315,20 @@ pub fn gen_cell(rng: &mut Rng, b: &BuiltStack, with_insts: bool) -> RCell {
     let (nx, ny) = (b.lx * rx, b.ly * ry);
     let mut cell = RCell { metals, nx, ny, insts: vec![], subs: vec![], cuts: vec![], assigns: vec![] };
     if with_insts {
+        // sub-cells: 0..=metals metal layers (a zero-metal cell blocks nothing); positions either on the common layer-pitch grid or on the
+        // primitive grid only
+        let fine = rng.bool();
         for s in 0..1 + rng.usize(2) {
-            cell.subs.push((1 + rng.usize(metals), b.lx * rng.range(1, (rx - 1).max(1)), b.ly * rng.range(1, (ry - 1).max(1))));
+            // (sizes stay on the common layer-pitch grid: the compiler rejects cells whose size is not a multiple of their layers' pitches)
+            let (sx, sy) = (b.lx * rng.range(1, (rx - 1).max(1)), b.ly * rng.range(1, (ry - 1).max(1)));
+            cell.subs.push((rng.usize(metals + 1), sx, sy));
             let _ = s;
         }
         for k in 0..1 + rng.usize(3) {
             let sub = rng.usize(cell.subs.len());
             let (sx, sy) = (cell.subs[sub].1, cell.subs[sub].2);
-            // random grid-aligned position inside the outline
-            let x0 = b.lx * rng.range(0, (nx - sx) / b.lx);
-            let y0 = b.ly * rng.range(0, (ny - sy) / b.ly);
+            // a position inside the outline: on the common layer-pitch grid, or on the primitive grid only (off the pitch of coarser layers)
+            let (x0, y0) = if fine { (rng.range(0, nx - sx), rng.range(0, ny - sy)) } else { (b.lx * rng.range(0, (nx - sx) / b.lx), b.ly * rng.range(0, (ny - sy) / b.ly)) };
             let bbox = (x0, y0, x0 + sx, y0 + sy);
             // keep a strict gap to every earlier instance in at least one axis
             let ok = cell.insts.iter().all(|o| bbox.0 > o.bbox.2 || bbox.2 < o.bbox.0 || bbox.1 > o.bbox.3 || bbox.3 < o.bbox.1);
@@ -716,6 +720,9 @@ impl Prop for C08 {
                 let es = format!("{:?}", e);
                 let class: String = es.split(|c: char| c == '{' || c == '\n' || c == ':').next().unwrap_or("").chars().filter(|c| !c.is_ascii_digit()).take(40).collect();
                 cx.count(&format!("compile_err.{}", class.trim()));
+                // the innermost message (digits dropped) tells the kinds of rejection apart
+                let inner: String = es.rsplit("message: \"").next().unwrap_or("").chars().filter(|c| !c.is_ascii_digit()).take(60).collect();
+                cx.count(&format!("compile_err_msg.{}", inner.trim()));
                 // an error satisfies the statement; it is counted, and too many of them make the run inconclusive (non-vacuity)
                 cx.count("compile_err_total");
                 let _ = (any_flip_asym, refl_along_track);
